@@ -190,6 +190,56 @@ class SBytes:
             return True
         return bool(SBytes(self.b[-len(p):]) == p)
 
+
+    def __reversed__(self):
+        return (self[i] for i in range(len(self.b) - 1, -1, -1))
+
+    def _elem_in(self, x, chars):
+        """does byte element x belong to the concrete byte set? (forks when undecided)"""
+        if isinstance(x, int):
+            return x in chars
+        return bool(SBool(z3.Or(*[x == c for c in chars]))) if chars else False
+
+    def rstrip(self, chars=b" \t\n\r\x0b\x0c"):
+        b = list(self.b)
+        while b and self._elem_in(b[-1], bytes(chars)):
+            b.pop()
+        return _norm(SBytes(b))
+
+    def lstrip(self, chars=b" \t\n\r\x0b\x0c"):
+        b = list(self.b)
+        while b and self._elem_in(b[0], bytes(chars)):
+            b.pop(0)
+        return _norm(SBytes(b))
+
+    def strip(self, chars=b" \t\n\r\x0b\x0c"):
+        return SBytes.lift(self.rstrip(chars)).lstrip(chars)
+
+    def replace(self, old, new):
+        old, new = bytes(old), bytes(new)
+        if len(old) != 1 or len(new) != 1:
+            raise Unsupported("multi-byte replace on symbolic bytes")
+        tab = list(range(256))
+        tab[old[0]] = new[0]
+        return self.translate(bytes(tab))
+
+    def translate(self, table):
+        from .sym import STable
+        t = table if isinstance(table, STable) else STable(list(table), "translate", 8)
+        out = []
+        for x in self.b:
+            out.append(t.values[x] if isinstance(x, int) else t[SInt(x, 8)])
+        return _norm(SBytes(out))
+
+    def upper(self):
+        return self.translate(bytes(range(256)).upper())
+
+    def lower(self):
+        return self.translate(bytes(range(256)).lower())
+
+    def __lt__(self, o):
+        raise Unsupported("ordering of symbolic bytes")
+
     def bv(self):
         parts = [_t8(x) for x in self.b]
         return parts[0] if len(parts) == 1 else z3.Concat(*parts)
@@ -215,6 +265,11 @@ class SBytes:
 
     def __repr__(self):
         return "<SBytes len=%d>" % len(self.b)
+
+
+def _norm(sb):
+    c = sb.concrete()
+    return c if c is not None else sb
 
 
 def _t8(x):
